@@ -312,6 +312,36 @@ func (c *Ctx) ListerRules(prop string) {
 					listVal = ex
 				}
 			}
+			// the service is asked for exactly the paths of the request
+			okPaths := false
+			var pathsArg ssa.Value
+			for _, a := range ci.Common().Args {
+				if sl, ok := a.Type().(*types.Slice); ok {
+					if b, ok := sl.Elem().Underlying().(*types.Basic); ok && b.Kind() == types.String {
+						pathsArg = a
+					}
+				}
+			}
+			if pathsArg != nil {
+				v := sliceRootExact(pathsArg)
+				if call, ok := v.(*ssa.Call); ok && !call.Call.IsInvoke() {
+					if f := call.Call.StaticCallee(); f != nil && f.Name() == "GetPaths" && len(call.Call.Args) == 1 {
+						if p, ok := call.Call.Args[0].(*ssa.Parameter); ok && p.Parent() == H {
+							okPaths = true
+						}
+					}
+				}
+				if _, f, base := an.FieldOf(v); f == "Paths" {
+					if p, ok := base.(*ssa.Parameter); ok && p.Parent() == H {
+						okPaths = true
+					}
+				}
+			}
+			if !okPaths {
+				c.R.Fail(rule5, Fn(H)+":paths", c.Pos(ci), "the lister service is not asked for the request's own paths but for something computed from them: "+an.Term(pathsArg)+" (a rewritten path list can drop or widen what the caller asked for)", "ListAccounts(ctx, credentials, req.GetPaths())", nil)
+			} else {
+				c.R.OK(rule5, Fn(H)+":paths", c.Pos(ci), "the lister service is asked for req.GetPaths() unchanged")
+			}
 		}
 		var loop *Loop
 		for _, l := range FindLoops(H) {
